@@ -71,7 +71,15 @@ func New(s string) (FileMode, error) {
 // Please note this function does not check if the returned FileMode
 // is valid in git or if it is malformed.
 func FromBytes(b []byte) (FileMode, error) {
-	if len(b) == 0 || len(b) > 7 {
+	if len(b) == 0 {
+		return Empty, fmt.Errorf("invalid mode length: %d", len(b))
+	}
+	// Zero padding of any length is accepted (and ignored), as upstream's
+	// tree parser does; the length limit applies to the significant digits.
+	for len(b) > 1 && b[0] == '0' {
+		b = b[1:]
+	}
+	if len(b) > 7 {
 		return Empty, fmt.Errorf("invalid mode length: %d", len(b))
 	}
 
